@@ -3,6 +3,6 @@ REGISTRY["C29"] = l0("C29", "c29_future",
           "parsec/class/parsec_datacopy_future.c (get_or_trigger, nested futures, destructor / cleanup; out of line, instrumented)",
           "parsec/class/parsec_future.h + parsec_object.h macros (via instrumented shim)", "parsec/class/parsec_list.c / list.h (nested-future list)"],
     bounds="1-8 sim-threads, <= 3 base + 2 countable (count 1-6) + 2 datacopy futures (1-4 shapes, synchronous / asynchronous / pre-set fulfilment), <= 40 ops "
-           "(set/get/is_ready/get_or_trigger/complete); token discipline: exactly one set per base future, exactly count sets per countable future, one set per triggered datacopy future",
+           "(set/get/is_ready/get_or_trigger/complete); token discipline: one set per base future, or (30% of the plans, knob dup_set) 2-3 sets of distinct values by different threads on 3-6 base futures with dense preemption (the future must keep the first value for every reader and run its callback once), exactly count sets per countable future, one set per triggered datacopy future",
     assumptions=["C29 silences PaRSEC's diagnostic stream 0 (the benign 'already in a ready state' warning of a non-final countable set would otherwise print)",
                  "C29 get_or_trigger returning NULL is accepted whenever the target or any other nested future was incomplete at the call (library documents NULL = not fulfilled yet)"])
